@@ -11,6 +11,7 @@ GROUPS = {
     "transit": ["C06", "C07"],
     "xfer": ["C04"],
     "recvdest": ["C05"],
+    "dil_l2": ["C12"],
 }
 
 
